@@ -1107,6 +1107,9 @@ MUTANTS = [
     dict(id="C16.g-maintenance-flag-starts-raised", prop="C16", file="crates/storage/src/tiny_lfu.rs",
          old="            maintenance_flag: AtomicBool::new(false),", new="            maintenance_flag: AtomicBool::new(true),",
          expect="C16.g/maintenance/flag-protocol"),
+    dict(id="C10.h-expected-epoch-taken-from-the-arriving-task", prop="C10", file="crates/storage/src/write_manager/write_behind.rs",
+         old="        while let Ok(task) = receiver.recv() {\n            holdback_queues.push(task);", new="        while let Ok(task) = receiver.recv() {\n            current_batch.expected_epoch = task.write_buffer.epoch;\n            holdback_queues.push(task);",
+         expect="C10.h/expected_epoch/only-advanced-by-one-after-applying"),
     dict(id="C12.k-varint-reader-u128-stops-on-set-bit", prop="C12", file="crates/serialize/src/postcard.rs",
          old="            result |= u128::from(byte & 0x7F) << shift;\n\n            if byte & 0x80 == 0 {",
          new="            result |= u128::from(byte & 0x7F) << shift;\n\n            if byte & 0x80 != 0 {",
